@@ -96,7 +96,7 @@ theorem maskTail_bits (X : List UInt8) (n : Nat) (hm : X.length = (n + 7) / 8) :
 /-- `ReadBits(n)`: a bit string of capacity and length `n` holding the next `n` bits, with a clean tail -/
 theorem readBits_ok (n : Nat) (s : BitString) (h8 : s.len ≤ 8 * s.buf.length) (h : s.rCursor + n ≤ s.len) :
     ∃ r, readBits n s = (.ok r, { s with rCursor := s.rCursor + n }) ∧ abs r = nextBits s n ∧ Inv r ∧
-      r.cap = n ∧ r.len = n := by
+      r.cap = n ∧ r.len = n ∧ r.rCursor = 0 := by
   have a1 : ¬ s.len < s.rCursor + n := by omega
   simp only [readBits, bind_run, needBits_run, a1, if_false, get_run, ite_run]
   by_cases hal : s.rCursor % 8 = 0
@@ -114,7 +114,7 @@ theorem readBits_ok (n : Nat) (s : BitString) (h8 : s.len ≤ 8 * s.buf.length) 
       have e2 : min n (8 * ((n + 7) / 8)) = n := by omega
       rw [e1, e2]
     have hl : ((bytesToBits X).take n).length = n := by simp [hX]; omega
-    refine ⟨_, rfl, ?_, ?_, rfl, rfl⟩
+    refine ⟨_, rfl, ?_, ?_, rfl, rfl, rfl⟩
     · show List.take n (bytesToBits (maskTail X n)) = nextBits s n
       rw [hbits, List.take_append_of_le_length (by omega), List.take_take, Nat.min_self, hXbits]
     · refine ⟨Nat.le_refl _, ?_, Nat.zero_le _, ?_⟩
@@ -125,8 +125,8 @@ theorem readBits_ok (n : Nat) (s : BitString) (h8 : s.len ≤ 8 * s.buf.length) 
           maskTail_length]
   · simp only [hal, if_false]
     have hnew : (new n).len + n ≤ (new n).cap := by simp [new]
-    obtain ⟨d, hl, ha, hi, hc, _⟩ := readBitsLoop_ok n (new n) s (inv_new n) hnew h8 h
-    refine ⟨d, hl, by rw [ha, abs_new]; rfl, hi, by rw [hc]; rfl, ?_⟩
+    obtain ⟨d, hl, ha, hi, hc, hrc⟩ := readBitsLoop_ok n (new n) s (inv_new n) hnew h8 h
+    refine ⟨d, hl, by rw [ha, abs_new]; rfl, hi, by rw [hc]; rfl, ?_, by rw [hrc]; rfl⟩
     have := hi.abs_length
     rw [ha, abs_new, List.nil_append, nextBits_length s n h8 h] at this
     exact this.symm
